@@ -4,7 +4,7 @@ diagonal; each sink API registers the AckType its result conversion expects; out
 registered only for unused ids and released on every final-ack path; an ack error closes the
 connection and is propagated by every dispatcher arm; a registered entry is never orphaned by a
 failing encode; a failed publish leaves no 'payload owed' state. Decides code shape on all paths, not
-the runtime histories. id-discipline (continued): SUBSCRIBE/UNSUBSCRIBE are written only after wait_response registered the id (a locally refused send leaves nothing on the wire). is-match-table (continued): a returned expression that compares discriminants (`self.ack_type() == tp`, derived PartialEq of a field-less enum) is evaluated per pair of variants. id-discipline (continued): exchanges that wait for PUBCOMP are not part of the sending order - when pkt_ack_inner keeps them in the queue, the answered entry is selected by position (skipping them; by id for PUBCOMP), never popped blindly from an end (the D28 shape).
+the runtime histories. id-discipline (continued): SUBSCRIBE/UNSUBSCRIBE are written only after wait_response registered the id (a locally refused send leaves nothing on the wire). is-match-table (continued): a returned expression that compares discriminants (`self.ack_type() == tp`, derived PartialEq of a field-less enum) is evaluated per pair of variants. id-discipline (continued): exchanges that wait for PUBCOMP are not part of the sending order - when pkt_ack_inner keeps them in the queue, the answered entry is selected by position (skipping them; by id for PUBCOMP), never popped blindly from an end (the D28 shape). id-discipline (continued): one of the position predicates that select the answered entry tests the entry kind and compares its packet id with the acknowledgement's (PUBCOMP answers the entry with its own id).
 """
 from facts import *
 from symex import SymEx, cond_map, term_str_v, derived_eq
